@@ -140,8 +140,16 @@ PlainNameOf(n) ==
     [] n.c = "arg" /\ n.b = "n" -> <<n.n>>
     [] OTHER -> <<"*">>
 
+\* a type that the tree says resolves to a project item (interface / parcelable / enum) names the key of an item
+\* of that kind which some file of the project really registers
+ResolvedKeysExist(ns, keys) ==
+  \A i \in NamedTypes(ns) :
+     (Len(ns[i].rk) = 3 /\ ns[i].rk[1] = "item" /\ ns[i].rk[2] \in {"interface", "parcelable", "enum"})
+        => (ns[i].rk[3] \in DOMAIN keys /\ ns[i].rk[2] \in keys[ns[i].rk[3]])
+
 NamesOK(ns, syms, keys) ==
-  \A k \in DOMAIN syms :
+  /\ ResolvedKeysExist(ns, keys)
+  /\ \A k \in DOMAIN syms :
      LET i == AtPath(ns, syms[k].p) IN
      i # 0 => /\ (QNameOfK(ns, ns[i], keys) = <<"*">> \/ syms[k].qname = QNameOfK(ns, ns[i], keys))
               /\ (PlainNameOf(ns[i]) = <<"*">> \/ syms[k].name = PlainNameOf(ns[i]))
